@@ -2558,6 +2558,116 @@ fn main() {
                                 Err(e) => format!("{{\"client\":\"{}\",\"lost\":0,\"errors\":0}}", e),
                             }
                         }
+                        // cancel_send_credit: a client-side sender is granted 8 credits; the connection's outgoing path is
+                        //   back-pressured (tiny duplex, channel buffers of 1, a peer that stops reading for 1.2 s after the
+                        //   attach). The application sends pre-settled messages under a 40 ms time-out (dropping pending send
+                        //   futures) for 0.8 s. When the peer reads again it re-states its view (delivery-count = what it
+                        //   received, credit = 8 - that). The sender must then be able to use the credit the receiver still
+                        //   grants: one more send must complete.
+                        // cancel_send_multi_frame: the peer's attach limits max-message-size to 16, so a 60-byte message goes out
+                        //   as several transfers; same back-pressure and impatient application. No delivery may be left
+                        //   unfinished on the wire (a frame with more=true followed by the first frame of another delivery).
+                        "cancel_send_credit" | "cancel_send_multi_frame" => {
+                            use fe2o3_amqp_types::performatives::Flow;
+                            let multi = name == "cancel_send_multi_frame";
+                            let _ = (client_io, peer_io);
+                            let (client_io, peer_io) = tokio::io::duplex(48);
+                            let cfg = sp::PeerCfg { credit: None, ..Default::default() };
+                            let received = std::sync::Arc::new(std::sync::atomic::AtomicU32::new(0));
+                            let received2 = received.clone();
+                            let mut restated = false;
+                            let peer = tokio::spawn(sp::run(peer_io, sp::PeerCfg { credit: None, ..Default::default() }, move |f: &Frame, _log: &[String]| {
+                                let mut act = sp::Act::default();
+                                match &f.body {
+                                    FrameBody::Attach(a) => {
+                                        let mut answers = sp::default_answers(f, &cfg).0;
+                                        if multi {
+                                            for fr in answers.iter_mut() {
+                                                if let FrameBody::Attach(at) = &mut fr.body {
+                                                    at.max_message_size = Some(16);
+                                                }
+                                            }
+                                        }
+                                        act.replies = answers;
+                                        act.replies.push(Frame::new(f.channel, FrameBody::Flow(Flow { next_incoming_id: Some(0), incoming_window: 2048, next_outgoing_id: 0, outgoing_window: 2048, handle: Some(a.handle.clone()), delivery_count: Some(0), link_credit: Some(if multi { 100 } else { 8 }), available: None, drain: false, echo: false, properties: None })));
+                                        act.handled = true;
+                                        // stop reading: back-pressure on everything the client sends from now on
+                                        act.pause_ms = 1200;
+                                    }
+                                    FrameBody::Transfer { performative, .. } => {
+                                        if performative.delivery_id.is_some() && !performative.more || !multi {
+                                            received2.fetch_add(1, std::sync::atomic::Ordering::SeqCst);
+                                        }
+                                        if !multi && !restated {
+                                            // (sent once, after the back-pressure phase: the first transfer is read only then)
+                                            restated = true;
+                                        }
+                                    }
+                                    _ => {}
+                                }
+                                act
+                            }));
+                            let client = tokio::time::timeout(Duration::from_secs(12), async {
+                                let mut conn = fe2o3_amqp::Connection::builder().container_id("client").buffer_size(1).open_with_stream(client_io).await.map_err(|_| "open_failed".to_string())?;
+                                let mut session = fe2o3_amqp::Session::builder().buffer_size(1).begin(&mut conn).await.map_err(|_| "begin_failed".to_string())?;
+                                let mut sender = fe2o3_amqp::Sender::attach(&mut session, "s-1", "q1").await.map_err(|_| "attach_failed".to_string())?;
+                                let body = if multi { "0123456789".repeat(4) } else { "m".to_string() };
+                                let mut completed = 0u32;
+                                let mut dropped = 0u32;
+                                let t0 = std::time::Instant::now();
+                                while t0.elapsed() < Duration::from_millis(800) {
+                                    let m = fe2o3_amqp::Sendable::builder().message(body.clone()).settled(true).build();
+                                    match tokio::time::timeout(Duration::from_millis(40), sender.send(m)).await {
+                                        Ok(Ok(_)) => completed += 1,
+                                        Ok(Err(_)) => break,
+                                        Err(_) => dropped += 1,
+                                    }
+                                }
+                                // the peer reads again after 1.2 s; give everything queued time to arrive
+                                tokio::time::sleep(Duration::from_millis(900)).await;
+                                Ok::<_, String>((sender, session, conn, completed, dropped))
+                            })
+                            .await
+                            .unwrap_or(Err("hang".to_string()));
+                            match client {
+                                Err(e) => {
+                                    peer.abort();
+                                    format!("{{\"client\":\"{}\",\"starved\":false,\"partial_deliveries\":0}}", e)
+                                }
+                                Ok((mut sender, mut session, mut conn, completed, dropped)) => {
+                                    let seen = received.load(std::sync::atomic::Ordering::SeqCst);
+                                    // one more send: the receiver still grants 8 - seen credits (if any)
+                                    let m = fe2o3_amqp::Sendable::builder().message("last".to_string()).settled(true).build();
+                                    let last = tokio::time::timeout(Duration::from_millis(1500), sender.send(m)).await;
+                                    let starved = !multi && seen < 8 && last.is_err();
+                                    std::mem::forget(sender);
+                                    let _ = tokio::time::timeout(Duration::from_secs(1), session.end()).await;
+                                    let _ = tokio::time::timeout(Duration::from_secs(1), conn.close()).await;
+                                    let log = tokio::time::timeout(Duration::from_secs(2), peer).await.ok().and_then(|r| r.ok()).unwrap_or_default();
+                                    // unfinished deliveries: a transfer with more=true directly followed by a transfer that starts another delivery
+                                    let xs: Vec<&String> = log.iter().filter(|l| l.starts_with("transfer:")).collect();
+                                    let mut partial = 0;
+                                    for w in xs.windows(2) {
+                                        if w[0].contains(":moretrue:") && w[1].contains(":idSome(") && !w[1].contains(":idSome(0)") {
+                                            // (continuation frames carry no tag but the session stamps an id on tagged frames only)
+                                            let new_delivery = w[1].contains(":settledSome(");
+                                            if new_delivery {
+                                                partial += 1;
+                                            }
+                                        }
+                                    }
+                                    if let Some(l) = xs.last() {
+                                        if l.contains(":moretrue:") {
+                                            partial += 1;
+                                        }
+                                    }
+                                    if std::env::var("SCN_DEBUG").is_ok() {
+                                        eprintln!("peer log: {:?}", log);
+                                    }
+                                    format!("{{\"client\":\"ok\",\"completed\":{},\"send_futures_dropped\":{},\"receiver_saw\":{},\"last_send_completed\":{},\"starved\":{},\"partial_deliveries\":{},\"transfers\":{}}}", completed, dropped, seen, last.is_ok(), starved, partial, xs.len())
+                                }
+                            }
+                        }
                         _ => "{\"error\":\"unknown scenario\"}".to_string(),
                     }
                 })
